@@ -342,7 +342,7 @@ def branches_item(item):
         world = simmpi.World(nranks)
         st['world'] = world
         sel = {}
-        if what == 'block':
+        if what in ('block', 'block_sub'):
             # symbolic selection: on the chosen dimensions a range [lo,hi) (hi = lo+1 is a single index, lo = hi selects
             # nothing), everything on the others
             for d in seldims:
@@ -358,7 +358,9 @@ def branches_item(item):
                 ctx.assume(z3.And(fv >= 0, fv < shape[sel['fd']]))
                 sel['fv'] = int(symx.SInt(fv))
         st['sel'] = sel
+        return run_world(world, sel)
 
+    def run_world(world, sel):
         def rankfn(comm):
             rank = comm.Get_rank()
             draw = 0
@@ -380,7 +382,7 @@ def branches_item(item):
                 else:
                     g.getMin(draw, sel['fd'], sel['fv'])
                     g.getMax(draw, sel['fd'], sel['fv'])
-            elif what == 'block':
+            elif what in ('block', 'block_sub'):
                 L = h.getLayout('v_parallel')
                 dims = []
                 for dglob in L.dims_order:
@@ -391,10 +393,32 @@ def branches_item(item):
                         dims.append(SymRange(s[0], s[1]))
                     else:
                         dims.append(SymRange(s, s + 1))
-                g.getBlockForFig(dims, comm, draw)
+                if what == 'block_sub':
+                    # the communicator handed to getBlockForFig numbers the processes differently from the grid's own
+                    # communicator (reversed order); the root is given in the numbering of the communicator handed over
+                    sub = comm.Split(0, comm.Get_size() - 1 - rank)
+                    g.getBlockForFig(dims, sub, 0)
+                    g.getBlockForFig(dims, sub, sub.Get_size() - 1)
+                else:
+                    g.getBlockForFig(dims, comm, draw)
+                    g.getBlockForFig(dims, comm, comm.Get_size() - 1)
             return True
         world.run(rankfn)
         return world
+
+    def concrete_replay(mdl):
+        """the same ranks on the selection values of the solver's model, nothing symbolic"""
+        sel = {}
+        for d, v in st['sel'].items():
+            if isinstance(v, tuple):
+                sel[d] = tuple(int(symx.model_value(mdl, x)) if isinstance(x, symx.Sym) else int(x) for x in v)
+            else:
+                sel[d] = int(symx.model_value(mdl, v)) if isinstance(v, symx.Sym) else v
+        try:
+            run_world(simmpi.World(nranks), sel)
+        except Exception as e:
+            return '%s: %s' % (type(e).__name__, str(e)[:200]), sel
+        return None, sel
 
     for ctx, (k, val) in symx.explore(body, timeout_ms=30000, index_cap=16):
         if k == 'abort':
@@ -408,7 +432,14 @@ def branches_item(item):
                 res['violations'].append(('branches:%s' % what, '%s: %s' % (type(val).__name__, str(val)[:200]),
                                           dict(kind='branches', what=what, nprocs=nprocs, plot=plot, model=str(m)[:500])))
             else:
-                res['inconclusive'].append('%s: exception %s: %s' % (what, type(val).__name__, str(val)[:200]))
+                prob = None
+                if ctx.check() == 'sat':
+                    prob, csel = concrete_replay(ctx.model())
+                if prob:
+                    res['violations'].append(('branches:%s:exception' % what, 'a rank raises inside the collective sequence (the others block): %s; selection %s' % (prob, csel),
+                                              dict(kind='branches', what=what, nprocs=nprocs, plot=plot, selection=str(csel))))
+                else:
+                    res['inconclusive'].append('%s: exception %s: %s' % (what, type(val).__name__, str(val)[:200]))
             continue
         probs = trace_problems(val)
         if probs:
@@ -541,6 +572,9 @@ def main():
         for plot in (False, True):
             for seldims in ([(0,), (2, 3)] if quick else [(0,), (1,), (2,), (3,), (0, 2), (0, 3), (2, 3), (1, 3)]):
                 bitems.append(('block', list(grid), plot, seldims))
+    for grid in ([(2, 1)] if quick else [(2, 1), (2, 2)]):
+        bitems.append(('block_sub', list(grid), False, (0,)))
+        bitems.append(('block_sub', list(grid), True, (2, 3)))
     for r in H.pmap(branches_item, bitems, run.args.jobs):
         run.merge(r)
     for n in (1, 2, 3):
